@@ -39,10 +39,10 @@ var h264Params = []paramSet{
 
 var h265Params = []paramSet{
 	{vps: []byte{0x40, 0x01, 0x0c, 0x01}, pps: []byte{0x44, 0x01, 0xc1, 0x72, 0xb4, 0x62, 0x40},
-		sps: []byte{0x42, 0x01, 0x01, 0x04, 0x08, 0x00, 0x00, 0x03, 0x00, 0x98, 0x08, 0x00, 0x00, 0x03, 0x00, 0x00, 0x5d, 0x90, 0x00, 0x50, 0x10, 0x05, 0xa2, 0x29, 0x4b, 0x74, 0x94, 0x98, 0x5f, 0xfe, 0x00, 0x02, 0x00, 0x02, 0xd4, 0x04, 0x04, 0x04, 0x10, 0x00, 0x00, 0x03, 0x00, 0x10, 0x00, 0x00, 0x03, 0x01, 0xe0, 0x80},
+		sps:   []byte{0x42, 0x01, 0x01, 0x04, 0x08, 0x00, 0x00, 0x03, 0x00, 0x98, 0x08, 0x00, 0x00, 0x03, 0x00, 0x00, 0x5d, 0x90, 0x00, 0x50, 0x10, 0x05, 0xa2, 0x29, 0x4b, 0x74, 0x94, 0x98, 0x5f, 0xfe, 0x00, 0x02, 0x00, 0x02, 0xd4, 0x04, 0x04, 0x04, 0x10, 0x00, 0x00, 0x03, 0x00, 0x10, 0x00, 0x00, 0x03, 0x01, 0xe0, 0x80},
 		width: 1280, height: 720},
 	{vps: []byte{0x40, 0x01, 0x0c, 0x02}, pps: []byte{0x44, 0x01, 0xc1, 0x72, 0xb4, 0x62, 0x40},
-		sps: []byte{0x42, 0x01, 0x01, 0x01, 0x40, 0x00, 0x00, 0x03, 0x00, 0x00, 0x03, 0x00, 0x00, 0x03, 0x00, 0x00, 0x03, 0x00, 0x7b, 0xa0, 0x03, 0xc0, 0x80, 0x11, 0x07, 0xcb, 0x96, 0xb4, 0xa4, 0x25, 0x92, 0xe3, 0x01, 0x6a, 0x02, 0x02, 0x02, 0x08, 0x00, 0x00, 0x03, 0x00, 0x08, 0x00, 0x00, 0x03, 0x01, 0xe3, 0x00, 0x2e, 0xf2, 0x88, 0x00, 0x07, 0x27, 0x0c, 0x00, 0x00, 0x98, 0x96, 0x82},
+		sps:   []byte{0x42, 0x01, 0x01, 0x01, 0x40, 0x00, 0x00, 0x03, 0x00, 0x00, 0x03, 0x00, 0x00, 0x03, 0x00, 0x00, 0x03, 0x00, 0x7b, 0xa0, 0x03, 0xc0, 0x80, 0x11, 0x07, 0xcb, 0x96, 0xb4, 0xa4, 0x25, 0x92, 0xe3, 0x01, 0x6a, 0x02, 0x02, 0x02, 0x08, 0x00, 0x00, 0x03, 0x00, 0x08, 0x00, 0x00, 0x03, 0x01, 0xe3, 0x00, 0x2e, 0xf2, 0x88, 0x00, 0x07, 0x27, 0x0c, 0x00, 0x00, 0x98, 0x96, 0x82},
 		width: 1920, height: 1080, fps: "60.000"},
 }
 
@@ -86,13 +86,14 @@ func (t trackSpec) clock() int {
 }
 
 type muxCfg struct {
-	Variant  string      `json:"variant"` // mpegts fmp4 ll
-	Tracks   []trackSpec `json:"tracks"`
-	SegCount int         `json:"seg_count"`
-	SegMinMS int         `json:"seg_min_ms"`
-	PartMS   int         `json:"part_min_ms"`
-	Disk     bool        `json:"disk,omitempty"`
-	MaxSize  uint64      `json:"max_size,omitempty"`
+	Variant   string      `json:"variant"` // mpegts fmp4 ll
+	Tracks    []trackSpec `json:"tracks"`
+	SegCount  int         `json:"seg_count"`
+	SegMinMS  int         `json:"seg_min_ms"`
+	PartMS    int         `json:"part_min_ms"`
+	Disk      bool        `json:"disk,omitempty"`
+	MaxSize   uint64      `json:"max_size,omitempty"`
+	OpusTicks int         `json:"opus_ticks,omitempty"` // Opus packet duration in 48 kHz ticks (default 960 = 20 ms)
 }
 
 func (c muxCfg) String() string {
@@ -158,12 +159,12 @@ func newTrack(t trackSpec) *Track {
 }
 
 type muxInst struct {
-	cfg      muxCfg
-	m        *Muxer
-	tracks   []*Track
-	dir      string
-	encErrs  []string
-	vparam   int // parameter-set version currently in use by the writer (video)
+	cfg     muxCfg
+	m       *Muxer
+	tracks  []*Track
+	dir     string
+	encErrs []string
+	vparam  int // parameter-set version currently in use by the writer (video)
 }
 
 func newMux(cfg muxCfg, dir string) (*muxInst, error) {
@@ -194,11 +195,11 @@ func newMux(cfg muxCfg, dir string) (*muxInst, error) {
 // wunit is one Write call.
 type wunit struct {
 	Track  int   `json:"t"`
-	DTS    int64 `json:"dts"`           // in the track's clock rate (pts == dts unless PTSOff)
-	RA     bool  `json:"ra,omitempty"`  // video: random access unit
-	Params int   `json:"p,omitempty"`   // video: 0 none inline, 1 current parameter set inline, 2 switch to the other parameter set (inline)
-	NAU    int   `json:"n,omitempty"`   // audio: access units / packets in this write (default 1)
-	Seq    int   `json:"seq"`           // unique id, encoded in the payload
+	DTS    int64 `json:"dts"`            // in the track's clock rate (pts == dts unless PTSOff)
+	RA     bool  `json:"ra,omitempty"`   // video: random access unit
+	Params int   `json:"p,omitempty"`    // video: 0 none inline, 1 current parameter set inline, 2 switch to the other parameter set (inline)
+	NAU    int   `json:"n,omitempty"`    // audio: access units / packets in this write (default 1)
+	Seq    int   `json:"seq"`            // unique id, encoded in the payload
 	Size   int   `json:"size,omitempty"` // extra payload bytes
 }
 
@@ -268,8 +269,8 @@ func (mi *muxInst) audioData(u wunit) [][]byte {
 	var out [][]byte
 	for k := 0; k < n; k++ {
 		if mi.cfg.Tracks[u.Track].Kind == "opus" {
-			// TOC 0xf8: CELT FB 20 ms (960 samples), one frame
-			out = append(out, append([]byte{0xf8}, payloadTail(u, k)...))
+			// TOC: one frame of the configured duration (default CELT FB 20 ms)
+			out = append(out, append([]byte{opusTOC(mi.cfg.OpusTicks)}, payloadTail(u, k)...))
 		} else {
 			out = append(out, append([]byte{0x21}, payloadTail(u, k)...))
 		}
@@ -333,3 +334,27 @@ var prefixRe = regexp.MustCompile(`[0-9a-f]{12}_`)
 
 // canon replaces the random URI prefix of a muxer by "P_".
 func canon(s string) string { return prefixRe.ReplaceAllString(s, "P_") }
+
+func opusTOC(ticks int) byte {
+	switch ticks {
+	case 120:
+		return 28 << 3
+	case 240:
+		return 29 << 3
+	case 480:
+		return 30 << 3
+	case 1920:
+		return 2 << 3
+	case 2880:
+		return 3 << 3
+	}
+	return 31 << 3
+}
+
+func msDur(ms int) time.Duration { return time.Duration(ms) * time.Millisecond }
+
+// setAACRate gives an MPEG-4 Audio track another sample rate (ClockRate == sample rate).
+func setAACRate(t *Track, rate int) {
+	t.ClockRate = rate
+	t.Codec.(*codecs.MPEG4Audio).Config.SampleRate = rate
+}
